@@ -203,6 +203,140 @@ def fold_is_attribute(src):
     return arms
 
 
+class _Unknown(Exception):
+    pass
+
+
+class _Scalar(Exception):
+    pass
+
+
+def check_version_ordering(ctx):
+    """C16.R9: the six comparison operators of ProtocolVersion, symbolically evaluated for the nine sign combinations of (major, minor), are the lexicographic order."""
+    CONTENTS = 'kmip/core/messages/contents.py'
+    ctx.rule('C16.R9', 'ProtocolVersion.__eq__/__ne__/__lt__/__le__/__gt__/__ge__ decide by comparing major with major and minor with minor: symbolically evaluated over the nine sign combinations they equal the lexicographic order on (major, minor) (version acceptance, gates and DiscoverVersions all rest on these operators)')
+    t = ctx.src.tree(CONTENTS)
+    cls = get_class(t, 'ProtocolVersion')
+    ops = {}
+    for name in ('__eq__', '__ne__', '__lt__', '__le__', '__gt__', '__ge__'):
+        m = get_method(cls, name, optional=True)
+        if m is not None:
+            ops[name] = m
+    ctx.need('__eq__' in ops and '__lt__' in ops, 'anchor vanished: ProtocolVersion.__eq__/__lt__')
+    PY = {ast.Eq: lambda c: c == 0, ast.NotEq: lambda c: c != 0, ast.Lt: lambda c: c < 0, ast.LtE: lambda c: c <= 0, ast.Gt: lambda c: c > 0, ast.GtE: lambda c: c >= 0}
+    DUNDER = {ast.Eq: '__eq__', ast.NotEq: '__ne__', ast.Lt: '__lt__', ast.LtE: '__le__', ast.Gt: '__gt__', ast.GtE: '__ge__'}
+
+    def side(e, fnargs):
+        """('self'|'other', field) for self.major / other.minor (also _major.value style is not accepted: property access only)."""
+        if isinstance(e, ast.Attribute) and isinstance(e.value, ast.Name) and e.attr in ('major', 'minor') and e.value.id in fnargs:
+            return fnargs[e.value.id], e.attr
+        return None
+
+    def lex(parts, signs):
+        for f in parts:
+            if signs[f] != 0:
+                return signs[f]
+        return 0
+
+    def ev(e, signs, fnargs, depth):
+        if isinstance(e, ast.Constant) and isinstance(e.value, bool):
+            return e.value
+        if isinstance(e, ast.Name) and e.id == 'NotImplemented':
+            raise _Unknown('NotImplemented on the ProtocolVersion arm')
+        if isinstance(e, ast.UnaryOp) and isinstance(e.op, ast.Not):
+            return not ev(e.operand, signs, fnargs, depth)
+        if isinstance(e, ast.BoolOp):
+            vals = [ev(v, signs, fnargs, depth) for v in e.values]
+            return all(vals) if isinstance(e.op, ast.And) else any(vals)
+        if isinstance(e, ast.Call) and call_name(e) == 'isinstance' and len(e.args) == 2 and isinstance(e.args[0], ast.Name) and fnargs.get(e.args[0].id) == 'other':
+            return True
+        if isinstance(e, ast.Compare) and len(e.ops) == 1 and type(e.ops[0]) in PY:
+            l, r = e.left, e.comparators[0]
+            sl, sr = side(l, fnargs), side(r, fnargs)
+            if sl and sr and sl[1] == sr[1] and sl[0] != sr[0]:
+                c = signs[sl[1]] if sl[0] == 'self' else -signs[sl[1]]
+                return PY[type(e.ops[0])](c)
+            if isinstance(l, ast.Tuple) and isinstance(r, ast.Tuple) and len(l.elts) == len(r.elts):
+                ps = [(side(a, fnargs), side(b, fnargs)) for a, b in zip(l.elts, r.elts)]
+                if all(a and b and a[1] == b[1] and a[0] != b[0] and a[0] == ps[0][0][0] for a, b in ps):
+                    c = lex([a[1] for a, b in ps], signs)
+                    c = c if ps[0][0][0] == 'self' else -c
+                    return PY[type(e.ops[0])](c)
+            # self <op> other  ->  the class's own operator
+            if isinstance(l, ast.Name) and isinstance(r, ast.Name) and {fnargs.get(l.id), fnargs.get(r.id)} == {'self', 'other'}:
+                name = DUNDER[type(e.ops[0])]
+                if name not in ops:
+                    raise _Unknown('operator %s is not defined on the class' % name)
+                sg = signs if fnargs[l.id] == 'self' else {k: -v for k, v in signs.items()}
+                return call(name, sg, depth + 1)
+            # self.h() <op> other.h() with h a one-expression method of the class
+            if isinstance(l, ast.Call) and isinstance(r, ast.Call) and not l.args and not r.args and isinstance(l.func, ast.Attribute) and isinstance(r.func, ast.Attribute) \
+                    and l.func.attr == r.func.attr and isinstance(l.func.value, ast.Name) and isinstance(r.func.value, ast.Name) \
+                    and {fnargs.get(l.func.value.id), fnargs.get(r.func.value.id)} == {'self', 'other'}:
+                h = get_method(cls, l.func.attr, optional=True)
+                body = [st for st in (h.body if h is not None else []) if not (isinstance(st, ast.Expr) and isinstance(st.value, ast.Constant))]
+                if h is not None and len(body) == 1 and isinstance(body[0], ast.Return) and len(h.args.args) == 1:
+                    hv = body[0].value
+                    me = h.args.args[0].arg
+                    if isinstance(hv, ast.Tuple) and all(isinstance(x, ast.Attribute) and isinstance(x.value, ast.Name) and x.value.id == me and x.attr in ('major', 'minor') for x in hv.elts):
+                        c = lex([x.attr for x in hv.elts], signs)
+                        c = c if fnargs[l.func.value.id] == 'self' else -c
+                        return PY[type(e.ops[0])](c)
+                    fields = set(x.attr for x in ast.walk(hv) if isinstance(x, ast.Attribute) and isinstance(x.value, ast.Name) and x.value.id == me)
+                    if fields & {'major', 'minor'} and not isinstance(hv, (ast.Tuple, ast.List)):
+                        raise _Scalar('%s() folds (major, minor) into one value (%s) and the operator compares that value: no such encoding is the lexicographic order for all versions (e.g. 1.10 and 1.1 under a decimal rendering)' % (l.func.attr, U(hv)[:80]))
+        raise _Unknown('comparison through %s' % U(e)[:80])
+
+    def run_body(stmts, signs, fnargs, depth):
+        for st in stmts:
+            if isinstance(st, ast.Expr) and isinstance(st.value, ast.Constant):
+                continue
+            if isinstance(st, ast.Return):
+                return ev(st.value, signs, fnargs, depth)
+            if isinstance(st, ast.If):
+                r = run_body(st.body if ev(st.test, signs, fnargs, depth) else st.orelse, signs, fnargs, depth)
+                if r is not None:
+                    return r
+                continue
+            raise _Unknown('statement %s' % U(st)[:60])
+        return None
+
+    def call(name, signs, depth=0):
+        if depth > 6:
+            raise _Unknown('operator recursion')
+        fn = ops[name]
+        a = [x.arg for x in fn.args.args]
+        if len(a) != 2:
+            raise _Unknown('signature of %s' % name)
+        r = run_body(fn.body, signs, {a[0]: 'self', a[1]: 'other'}, depth)
+        if r is None:
+            raise _Unknown('%s falls off without a result' % name)
+        return r
+    WANT = {'__eq__': lambda c: c == 0, '__ne__': lambda c: c != 0, '__lt__': lambda c: c < 0, '__le__': lambda c: c <= 0, '__gt__': lambda c: c > 0, '__ge__': lambda c: c >= 0}
+    unknown = []
+    for name, fn in sorted(ops.items()):
+        site = '%s:%s ProtocolVersion.%s' % (CONTENTS, fn.lineno, name)
+        bad = []
+        try:
+            for mj in (-1, 0, 1):
+                for mn in (-1, 0, 1):
+                    signs = {'major': mj, 'minor': mn}
+                    got = call(name, signs)
+                    if got != WANT[name](lex(['major', 'minor'], signs)):
+                        bad.append(('major %s' % '<=>'[mj + 1], 'minor %s' % '<=>'[mn + 1], got))
+        except _Unknown as u:
+            unknown.append('%s: %s' % (site, u))
+            continue
+        except _Scalar as u:
+            ctx.fail('C16.R9', 'ProtocolVersion.%s|lexicographic' % name, site, str(u))
+            continue
+        ctx.check(not bad, 'C16.R9', 'ProtocolVersion.%s|lexicographic' % name, site, 'equals the lexicographic order on (major, minor) for all nine sign combinations',
+                  'differs from the lexicographic order on (major, minor) for %s' % bad)
+    ctx.count('version_comparison_operators', len(ops), 2)
+    if unknown and not ctx.findings:
+        raise AnalysisError('C16.R9 cannot evaluate the ProtocolVersion ordering symbolically (not a comparison of major with major and minor with minor): %s' % unknown[:2])
+
+
 def run(ctx):
     src = ctx.src
     m = EngineModel(src)
@@ -622,5 +756,5 @@ def run(ctx):
         ctx.check(fv == want, 'C16.R8', 'is_attribute|%s' % tag, '%s is_attribute' % ENUMS, '%s first accepted under %s' % (tag, vname),
                   'enums.is_attribute first accepts %s under %s; the specification table says %s' % (tag, fv, want))
     check_field_gates(ctx)
-    ctx.not_decided += ['ProtocolVersion comparison operators (value-level)']
     ctx.assumptions += ['T_OPMIN / T_ATTR_ADDED / T_ATTR_DEPRECATED transcribe the KMIP 1.0-2.0 specifications']
+    check_version_ordering(ctx)
